@@ -52,7 +52,8 @@ class E2ECheck:
 
     def mix(self, tier):
         if self.pid == "C07":
-            cond = ["cond", "cond_nested", "multi_cond", "multi_cond", "cond_dag"]
+            # cond_empty: one branch of the conditional is a bare edge to the join
+            cond = ["cond", "cond_nested", "multi_cond", "multi_cond", "cond_dag", "cond_empty", "cond_empty"]
             return BASE_MIX + [
                 ("greedy", {"shapes": cond}, 0.2),
                 ("greedy", {"shapes": cond, "flags": {"resolve_conditionals_at_submission": True}}, 0.25),
@@ -253,7 +254,10 @@ class E2ECheck:
                     ("direct-drive cancellations by the chaos policy", tot.get("direct_cancels", 0), 50)]
         if p == "C07":
             return [("conditional completions", tot.get("conditional_completions", 0), 100),
-                    ("conditional blocks judged at end", tot.get("cond_blocks_checked", 0), 100)]
+                    ("conditional blocks judged at end", tot.get("cond_blocks_checked", 0), 100),
+                    ("completions of conditionals resolved at submission judged against the snapshot", tot.get("resolution_snapshots_judged", 0), 50),
+                    ("conditionals with an empty branch completed", tot.get("empty_branch_completions", 0), 30),
+                    ("... of which the empty branch was the one taken", tot.get("empty_branch_taken", 0), 5)]
         if p == "C08":
             return [("CSV rows compared", tot.get("csv_rows", 0), 10000), ("traces parsed by CSVReader", tot.get("csvreader_parsed", 0), 150),
                     ("scheduler rows compared", tot.get("scheduler_rows_checked", 0), 1000)]
